@@ -13,6 +13,11 @@ STATIC_THEOREMS = [
     'SnapraidVerif.Props.C03.rec_unique_z',
     'SnapraidVerif.Props.C03.min_distance_z',
     'SnapraidVerif.Props.C03.genz_val',
+    'SnapraidVerif.Raid.invert_left_inverse',
+    'SnapraidVerif.Raid.invert_total',
+    'SnapraidVerif.Raid.decode_exact',
+    'SnapraidVerif.Props.C03.cauchy_decode_exact',
+    'SnapraidVerif.Props.C03.power_decode_exact',
 ]
 
 def main(tier, seed):
